@@ -238,10 +238,21 @@ impl Entities {
     ) -> Result<Self> {
         let checker = schema.map(|schema| EntitySchemaConformanceChecker::new(schema, extensions));
         let mut entities_touched: HashSet<EntityUID> = HashSet::new();
-        for entity in collection.into_iter() {
-            if let Some(checker) = checker.as_ref() {
-                checker.validate_entity(&entity)?;
+        let mut collection: Vec<Arc<Entity>> = collection.into_iter().collect();
+        if let Some(checker) = checker.as_ref() {
+            for entity in &collection {
+                checker.validate_entity(entity)?;
             }
+        }
+        // If the same UID occurs more than once, the last occurrence wins. Only
+        // that one is processed: the TC is repaired once at the end, so
+        // stripping stale edges for an intermediate version of an entity would
+        // work on ancestor sets that are not closed and leave stale edges behind.
+        let mut seen: HashSet<EntityUID> = HashSet::new();
+        collection.reverse();
+        collection.retain(|entity| seen.insert(entity.uid().clone()));
+        collection.reverse();
+        for entity in collection {
             let uid = entity.uid().clone();
             // If overwriting an existing entity, strip stale TC edges from its descendants
             if let Some(old_entity) = self.entities.get(&uid) {
